@@ -128,7 +128,7 @@ def gcVerdict (seq : List Nat) (out : String) : String :=
     | some (p, q), some (p3, q3) =>
       let l := seq.length
       let c := Gc.gcCount seq
-      if !Gc.within1e6 p q c l then s!"diff gc={c}/{l}" else
+      if !Gc.within1e6 p q c l then s!"diff gc {c}/{l}" else
       let first := Gc.every3 seq 0
       let third := Gc.every3 seq 2
       let okFirst := Gc.within1e6 p3 q3 (Gc.gcCount first) first.length
@@ -136,7 +136,7 @@ def gcVerdict (seq : List Nat) (out : String) : String :=
       if okFirst || okThird then
         "ok gc" ++ (if l ≥ 2 && 0 < c && c < l then " nt" else "")
           ++ (if okFirst then "" else " gc3-third-position") ++ (if l ≥ 1000 then " long" else "")
-      else s!"diff gc3={Gc.gcCount first}/{first.length}"
+      else s!"diff gc3 {Gc.gcCount first}/{first.length}"
     | _, _ => "reject gc-not-a-finite-number " ++ out
   | _ => "bad-op output"
 
